@@ -47,10 +47,14 @@ var (
 	}
 	bufferPool   = sync.Pool{}
 	programCache = caching.CreateProgramCache()
+	// programs compiled for addressable values (pv == true): the program of a type depends on
+	// pointer-value-ness (pointer-receiver marshalers), so the two variants must not share an entry
+	programCachePV = caching.CreateProgramCache()
 )
 
 func ResetProgramCache() {
 	programCache.Reset()
+	programCachePV.Reset()
 }
 
 func NewBytes() *[]byte {
